@@ -36,6 +36,7 @@ def one_walk(job):
             else: part.observe(f'side:{f.prop} {f.key}', {'what': f.what, 'seed': job['seed']})
         for prop, key in w.cover:
             if prop in job['props']: part.distinct.add((prop,) + (key if isinstance(key, tuple) else (key,)))
+        w.stats['steps'] = max(w.stats['steps'], len(w.history))      # hook-driven walks call the ops directly
         part.evaluations += w.stats['probes'] + w.stats['steps']
         for k, v in w.stats.items(): part.count('walk_' + k, v)
         part.count('walks', 1)
